@@ -144,8 +144,16 @@ func checkC01Random(c *Ctx) {
 	rng := rand.New(rand.NewSource(c.Seed*7919 + 13))
 	cases := make([]randomCase, n)
 	jobs := make([]Job, n)
+	// the first cases are the corpus of hand-written programs and of the repository's own test
+	// programs (the executions the repository's tests already perform, now with every step of the
+	// protocol checked); the rest is generated
+	corpus := c13Corpus()
 	for i := range cases {
-		cases[i] = genRandomCase(rng, i)
+		if i < len(corpus) {
+			cases[i] = randomCase{Kind: "corpus " + corpus[i].Name, Prog: corpus[i].Prog, Files: corpus[i].Files}
+		} else {
+			cases[i] = genRandomCase(rng, i)
+		}
 		jobs[i] = cases[i].job(true)
 	}
 	traces := make([][]string, 0, n)
